@@ -6,8 +6,9 @@ Core Lean only, total functions.  The model mirrors what the code DOES (defects 
 * `SetTokenBalance` inserts `Tokens[token] = 0` BEFORE journalling when the key is absent; the undo entry writes the previous
   value back, so the zero entry survives a revert (`Cfg.journalAbsent = false`);
 * `suicideChange` remembers only the strictly positive balances and reverts into a fresh map;
-* `stateObject.deepCopy` copies `Account` by value, so the `Tokens` MAP IS SHARED between the object and its copy
-  (`Cfg.cloneTokens = false`); `StateDB.Copy` deep-copies only dirty objects, does not copy thash/txIndex/revision ids;
+* `stateObject.deepCopy` copies `Account` by value; since fix 9e64f31 it clones the `Tokens` map (`Cfg.cloneTokens = true`),
+  before it the MAP WAS SHARED between the object and its copy (`Cfg.cloneTokens = false`, kept so that a reverted fix is
+  still modelled); `StateDB.Copy` deep-copies only dirty objects, does not copy thash/txIndex/revision ids;
 * `resetObjectChange.dirtied()` is nil; `createObjectChange.revert` deletes the map entries.
 
 Sharing is expressed with an explicit HEAP of reference cells (`Ctx.heap : Ref → TokMap`): the token map of an object is either
@@ -44,8 +45,13 @@ structure Cfg where
   inserts a zero first and writes the zero back -/
   journalAbsent : Bool
 
-/-- what the tree does today -/
-def Cfg.current : Cfg := { cloneTokens := false, journalAbsent := false }
+/-- the tree as pinned, before fix 9e64f31 (deepCopy shared the Tokens map) -/
+def Cfg.pinned : Cfg := { cloneTokens := false, journalAbsent := false }
+/-- what the tree does today (fix 9e64f31: deepCopy clones the map; the zero entry of `SetTokenBalance` is still un-journalled).
+The driver does not use this constant: it builds its `Cfg` from the facts re-extracted on every run (`Gen.C09Facts`);
+`Props.C09.treeCfg_eq_current` checks that the two agree. -/
+def Cfg.current : Cfg := { cloneTokens := true, journalAbsent := false }
+/-- both repairs (also journal the absence of the token entry) -/
 def Cfg.repaired : Cfg := { cloneTokens := true, journalAbsent := true }
 
 inductive TokStore where
@@ -480,5 +486,40 @@ def obs (c : Ctx) : Obs :=
 def rootContent (s : State) : List (Option (Nat × Nat × Int × List (Option Int) × List (Option Bytes) × Bytes)) :=
   addrU.map (fun a => (s.trie a).map (fun acc =>
     (acc.nonce, acc.credits, acc.balance, tokU.map acc.tokens, keyU.map acc.storage, acc.code)))
+
+/-! ### `journal.dirties` as the code keeps it (state/journal.go `append`, `revert`)
+
+The model above derives dirtiness from the entries (`isDirtyJ`); the code keeps a counter per address and deletes the key when
+the counter returns to zero.  `JB` is that bookkeeping, literally (`map[common.Address]int`: a missing key reads 0);
+`Props.C09.jb_inv_*` prove that the two agree after every append/revert.  (`journal.dirty(addr)`, the RIPEMD special case, is
+outside: the harness never uses that address.) -/
+
+structure JB where
+  entries : List Entry           -- head = most recent
+  dirties : Addr → Option Int    -- none = key absent
+
+def JB.empty : JB := { entries := [], dirties := fun _ => none }
+
+/-- `journal.append`: `j.dirties[*addr]++` -/
+def JB.append (j : JB) (e : Entry) : JB :=
+  { entries := e :: j.entries
+    dirties := match e.dirtied with
+      | some a => upd j.dirties a (some ((j.dirties a).getD 0 + 1))
+      | none => j.dirties }
+
+/-- one iteration of the loop of `journal.revert`: `if j.dirties[*addr]--; j.dirties[*addr] == 0 { delete(j.dirties, *addr) }` -/
+def JB.dropDirty (d : Addr → Option Int) (e : Entry) : Addr → Option Int :=
+  match e.dirtied with
+  | some a => if (d a).getD 0 - 1 = 0 then upd d a none else upd d a (some ((d a).getD 0 - 1))
+  | none => d
+
+/-- `journal.revert(statedb, n)` (the bookkeeping half; the undo half is `revertJournal`) -/
+def JB.revertAux (n : Nat) : List Entry → (Addr → Option Int) → JB
+  | [], d => { entries := [], dirties := d }
+  | e :: rest, d =>
+    if (e :: rest).length ≤ n then { entries := e :: rest, dirties := d }
+    else JB.revertAux n rest (JB.dropDirty d e)
+
+def JB.revert (j : JB) (n : Nat) : JB := JB.revertAux n j.entries j.dirties
 
 end Model.StateDB
